@@ -31,7 +31,7 @@ Lemma next_frame_encode cfg st f rest :
   valid_frame (enable_compression cfg) (opcode f) (fin f) (rsv1 f) false false (expecting st) = None ->
   next_frame cfg st = NFFrame (frame_total (hdr_of f)) (hdr_of f) (payload f).
 Proof.
-  intros Hc W Hl Hlim Hctl Hv. unfold next_frame. rewrite Hc, (peek_encode_frame f rest W), Hlim, too_large_wrap_0.
+  intros Hc W Hl Hlim Hctl Hv. unfold next_frame. rewrite Hc, (peek_encode_frame f rest W), Hlim, too_large_wrap_0, andb_false_r.
   cbn [hdr_of h_n h_op h_fin h_r1 h_r2 h_r3]. rewrite Hctl, andb_false_r.
   assert (T : frame_total (hdr_of f) < LIM63).
   { unfold frame_total, hl_total, hdr_of, hl_of; cbn [h_hl h_mk h_n]. unfold LIM62, LIM63 in *.
@@ -62,9 +62,166 @@ Proof.
   cbn [hdr_of h_op h_fin h_r1]. rewrite Hd, Hf.
   eexists. split; [reflexivity|].
   unfold mt_after, comp_after.
-  destruct (msg_type st =? 0); cbn [set_mt set_message set_expecting consume set_cache cache message msg_type compress expecting closed cclosed];
-    (repeat split; try reflexivity;
-     [rewrite Hc; now apply skip_encode
-     |destruct (nonempty (payload f)) eqn:E; cbn [set_message message set_mt];
-      rewrite Hm; rewrite <- (repr_app acc (payload f)), E; reflexivity]).
+  set (st1 := if msg_type st =? 0 then set_mt st (opcode f) (rsv1 f) else st).
+  assert (S1 : cache st1 = cache st /\ message st1 = message st /\ msg_type st1 = mt_after st f /\
+               compress st1 = comp_after st f /\ closed st1 = closed st /\ cclosed st1 = cclosed st).
+  { unfold st1, mt_after, comp_after. destruct (msg_type st =? 0); cbn; repeat split; reflexivity. }
+  destruct S1 as (A1 & A2 & A3 & A4 & A5 & A6).
+  set (st2 := if nonempty (payload f) then set_message st1 _ else st1).
+  assert (S2 : cache st2 = cache st /\ message st2 = repr (acc ++ payload f) /\ msg_type st2 = mt_after st f /\
+               compress st2 = comp_after st f /\ closed st2 = closed st /\ cclosed st2 = cclosed st).
+  { unfold st2. rewrite <- (repr_app acc (payload f)), <- Hm, <- A2.
+    destruct (nonempty (payload f)); cbn; repeat split; auto. }
+  destruct S2 as (B1 & B2 & B3 & B4 & B5 & B6).
+  cbn [consume set_expecting set_cache cache message msg_type compress expecting closed cclosed].
+  rewrite B1, Hc. repeat split; auto. now apply skip_encode.
+Qed.
+
+(* ---------- one data frame, final ---------- *)
+Lemma step_data_fin cfg st o f rest acc :
+  cache st = encode_frame f ++ rest -> wf_frame f -> len (payload f) < LIM62 -> msg_limit cfg = 0 ->
+  is_data (opcode f) = true -> fin f = true -> message st = repr acc ->
+  valid_frame (enable_compression cfg) (opcode f) true (rsv1 f) false false (expecting st) = None ->
+  exists st4,
+    cache st4 = rest /\ message st4 = None /\ msg_type st4 = 0 /\ compress st4 = false /\ expecting st4 = false /\
+    closed st4 = closed st /\ cclosed st4 = cclosed st /\
+    step cfg st o =
+      if comp_after st f then
+        match repr (acc ++ payload f) with
+        | None => stop_err cfg (set_message (set_message (if msg_type st =? 0 then set_mt st (opcode f) (rsv1 f) else st) (repr (acc ++ payload f))) None) o EPanic
+        | Some _ =>
+            let '(script, o1) := pop_infl o in
+            match read_all 0 [] script with
+            | RErr e => stop_err cfg (set_message (set_message (if msg_type st =? 0 then set_mt st (opcode f) (rsv1 f) else st) (repr (acc ++ payload f))) None) o1 e
+            | ROk out => dispatch cfg st4 o1 (mt_after st f) out
+            end
+        end
+      else dispatch cfg st4 o (mt_after st f) (acc ++ payload f).
+Proof.
+  intros Hc W Hl Hlim Hd Hf Hm Hv.
+  assert (Hctl : is_control (opcode f) = false) by (unfold is_data, is_control in *; lia).
+  unfold step. rewrite (next_frame_encode cfg st f rest Hc W Hl Hlim Hctl) by (rewrite Hf; exact Hv).
+  cbn [hdr_of h_op h_fin h_r1]. rewrite Hd, Hf, Hlim.
+  set (st1 := if msg_type st =? 0 then set_mt st (opcode f) (rsv1 f) else st).
+  assert (S1 : cache st1 = cache st /\ message st1 = message st /\ msg_type st1 = mt_after st f /\
+               compress st1 = comp_after st f /\ closed st1 = closed st /\ cclosed st1 = cclosed st /\ expecting st1 = expecting st).
+  { unfold st1, mt_after, comp_after. destruct (msg_type st =? 0); cbn; repeat split; reflexivity. }
+  destruct S1 as (A1 & A2 & A3 & A4 & A5 & A6 & A7).
+  set (st2 := if nonempty (payload f) then set_message st1 _ else st1).
+  assert (E2 : st2 = set_message st1 (repr (acc ++ payload f))).
+  { unfold st2. rewrite <- (repr_app acc (payload f)), <- Hm, <- A2.
+    destruct (nonempty (payload f)); [reflexivity|]. destruct st1; reflexivity. }
+  rewrite E2. cbn [set_message message compress]. rewrite A3, A4.
+  exists (consume (reset_msg (set_message (set_message st1 (repr (acc ++ payload f))) None)) (frame_total (hdr_of f))).
+  cbn [consume reset_msg set_message set_cache cache message msg_type compress expecting closed cclosed].
+  rewrite A1, Hc, (skip_encode f rest W), A5, A6.
+  repeat split; try reflexivity.
+  destruct (comp_after st f); [|now rewrite repr_body].
+  destruct (repr (acc ++ payload f)); reflexivity.
+Qed.
+
+Lemma dispatch_msg cfg st o mt body :
+  closed st = false -> mt = 2 \/ (mt = 1 /\ utf8_valid body = true) ->
+  dispatch cfg st o mt body = SCont st o [EvMsg mt body].
+Proof.
+  intros Hc [->|[-> Hu]]; unfold dispatch, handle_ws_message; cbn [N.eqb Pos.eqb]; rewrite Hc; [reflexivity|].
+  now rewrite Hu.
+Qed.
+
+(* ---------- the loop ---------- *)
+Lemma frame_loop_cont fuel cfg st o st1 :
+  closed st = false -> step cfg st o = SCont st1 o [] -> frame_loop (S fuel) cfg st o = frame_loop fuel cfg st1 o.
+Proof.
+  intros Hc Hs. cbn [frame_loop]. rewrite Hc, Hs.
+  destruct (frame_loop fuel cfg st1 o) as [[[? ?] ?] ?]. reflexivity.
+Qed.
+
+Lemma frame_loop_last fuel cfg st o st1 o1 evs :
+  closed st = false -> step cfg st o = SCont st1 o1 evs -> cache st1 = [] -> closed st1 = false ->
+  frame_loop (S (S fuel)) cfg st o = (st1, o1, evs, None).
+Proof.
+  intros Hc Hs Hca Hc1. cbn [frame_loop]. rewrite Hc, Hs, Hc1.
+  unfold step, next_frame. rewrite Hca. cbn [peek]. now rewrite app_nil_r.
+Qed.
+
+(* continuation frames: all but the last have FIN = 0 *)
+Fixpoint cont_frames (mk : bool) (kps : list (bytes * bytes)) : list frame :=
+  match kps with
+  | [] => []
+  | (k, p) :: r => mkf (match r with [] => true | _ :: _ => false end) false 0 mk k p :: cont_frames mk r
+  end.
+
+Definition msg_frames (mk : bool) (mt : N) (rsv : bool) (kps : list (bytes * bytes)) : list frame :=
+  match kps with
+  | [] => []
+  | (k, p) :: r => mkf (match r with [] => true | _ :: _ => false end) rsv mt mk k p :: cont_frames mk r
+  end.
+
+Definition wire_of (fs : list frame) : bytes := flat_map encode_frame fs.
+
+Definition kp_ok (mk : bool) (kp : bytes * bytes) : Prop :=
+  (mk = true -> length (fst kp) = 4%nat) /\ (mk = false -> fst kp = []) /\ len (snd kp) < LIM62.
+
+Lemma kp_wf mk fi r op kp : kp_ok mk kp -> op < 16 -> wf_frame (mkf fi r op mk (fst kp) (snd kp)).
+Proof. intros (A & B & C) Ho. unfold wf_frame; cbn. repeat split; auto. unfold LIM62, LIM63 in *. lia. Qed.
+
+Definition payloads (kps : list (bytes * bytes)) : bytes := concat (map snd kps).
+
+(* what the final frame makes of the assembled message *)
+Definition outcome (cfg : config) (o : oracle) (comp : bool) (total : bytes) : option (oracle * bytes) :=
+  if comp then
+    match repr total with
+    | None => None
+    | Some _ => let '(script, o1) := pop_infl o in
+                match read_all 0 [] script with ROk out => Some (o1, out) | RErr _ => None end
+    end
+  else Some (o, total).
+
+Lemma recv_conts cfg mk o mt comp : forall kps acc st fuel,
+  kps <> [] -> Forall (kp_ok mk) kps -> msg_limit cfg = 0 ->
+  cache st = wire_of (cont_frames mk kps) -> message st = repr acc -> msg_type st = mt -> mt <> 0 ->
+  compress st = comp -> expecting st = true -> closed st = false ->
+  forall o1 out, outcome cfg o comp (acc ++ payloads kps) = Some (o1, out) ->
+  mt = 2 \/ (mt = 1 /\ utf8_valid out = true) ->
+  exists st', frame_loop (S (length kps) + fuel) cfg st o = (st', o1, [EvMsg mt out], None) /\
+              cache st' = [] /\ message st' = None /\ msg_type st' = 0 /\ expecting st' = false /\ closed st' = false /\
+              cclosed st' = cclosed st.
+Proof.
+  induction kps as [|[k p] r IH]; intros acc st fuel Hne Hok Hlim Hc Hm Ht Ht0 Hcomp Hex Hcl o1 out Hout Hmt; [congruence|].
+  inversion Hok as [|? ? Hkp Hok']; subst.
+  assert (MT : mt_after st (mkf (match r with [] => true | _ :: _ => false end) false 0 mk k p) = msg_type st).
+  { unfold mt_after. destruct (N.eqb_spec (msg_type st) 0); [congruence|reflexivity]. }
+  assert (CP : comp_after st (mkf (match r with [] => true | _ :: _ => false end) false 0 mk k p) = compress st).
+  { unfold comp_after. destruct (N.eqb_spec (msg_type st) 0); [congruence|reflexivity]. }
+  destruct r as [|kp2 r'].
+  - (* the final frame *)
+    cbn [cont_frames wire_of flat_map] in Hc. 
+    pose proof (kp_wf mk true false 0 (k, p) Hkp ltac:(lia)) as W. cbn [fst snd] in W.
+    destruct (step_data_fin cfg st o _ [] acc Hc W ltac:(apply Hkp) Hlim eq_refl eq_refl Hm
+                ltac:(rewrite Hex; reflexivity)) as (st4 & C4 & M4 & T4 & _ & E4 & K4 & CC4 & Hs).
+    rewrite MT, CP in Hs. cbn [payload] in Hs.
+    unfold payloads in Hout. cbn [map concat snd] in Hout. rewrite app_nil_r in Hout.
+    unfold outcome in Hout.
+    assert (Hd : step cfg st o = dispatch cfg st4 o1 (msg_type st) out).
+    { rewrite Hs. destruct (compress st).
+      - destruct (repr (acc ++ p)); [|discriminate].
+        destruct (pop_infl o) as [script o2]. destruct (read_all 0 [] script); [|discriminate].
+        now injection Hout as <- <-.
+      - now injection Hout as <- <-. }
+    rewrite (dispatch_msg cfg st4 o1 (msg_type st) out) in Hd by (auto; congruence).
+    exists st4. split; [|repeat split; auto; congruence].
+    cbn [length plus]. apply frame_loop_last; auto. congruence.
+  - (* a middle frame, then the rest *)
+    cbn [cont_frames wire_of flat_map] in Hc. fold (wire_of (cont_frames mk (kp2 :: r'))) in Hc.
+    pose proof (kp_wf mk false false 0 (k, p) Hkp ltac:(lia)) as W. cbn [fst snd] in W.
+    destruct (step_data_nonfin cfg st o _ _ acc Hc W ltac:(apply Hkp) Hlim eq_refl eq_refl Hm
+                ltac:(rewrite Hex; reflexivity)) as (st1 & Hs & C1 & M1 & T1 & P1 & E1 & K1 & CC1).
+    rewrite MT in T1. rewrite CP in P1. cbn [payload] in M1.
+    assert (Hout' : outcome cfg o comp ((acc ++ p) ++ payloads (kp2 :: r')) = Some (o1, out)).
+    { rewrite <- Hout. unfold payloads. cbn [map concat snd]. now rewrite <- app_assoc. }
+    destruct (IH (acc ++ p) st1 fuel ltac:(discriminate) Hok' Hlim C1 M1 ltac:(congruence) Ht0 ltac:(congruence) E1
+                 ltac:(congruence) o1 out Hout' Hmt) as (st' & HL & R).
+    exists st'. split; [|destruct R as (? & ? & ? & ? & ? & ?); repeat split; auto; congruence].
+    change (S (length ((k, p) :: kp2 :: r')) + fuel)%nat with (S (S (length (kp2 :: r')) + fuel)).
+    rewrite (frame_loop_cont _ cfg st o st1 Hcl Hs). exact HL.
 Qed.
